@@ -1,4 +1,841 @@
-//! harness family c17 (stub until the family is built)
+//! harness family c17: the Applesoft minifier on generated valid programs, levels 0-3.
+//!
+//! Direct oracle (real code only; the observer is an independent ROM-style scanner, not tree-sitter):
+//!   the result exists and is accepted again (`lang::verify_str`, ascending line numbers, tokenizes),
+//!   every reference that resolved in the input resolves in the output, strings and DATA payloads
+//!   are the same sequence, variables keep their two-character identity, and the sequence of
+//!   reserved words the Apple II ROM would see is unchanged (REM aside).
+//! Tie: the abstract structure of the input (what the minifier's passes look at) goes to the Lean
+//!   model `A2Verif.Model.Minify`; its output lines / retargeted references / merged lengths are
+//!   compared with what the real minifier produced.  Shortening rule and guard table likewise.
 use crate::util::*;
+use a2kit::lang;
+use a2kit::lang::applesoft::minifier::Minifier;
+use a2kit::lang::applesoft::tokenizer::Tokenizer;
+use std::collections::{BTreeMap, BTreeSet};
 
-pub fn run(_ctx: &mut Ctx) {}
+// ------------------------------------------------------------------------------------------------
+// Apple II ROM reserved words in table order (token = 128 + index) and the tree-sitter node kinds
+// ------------------------------------------------------------------------------------------------
+const ROM: [(&str, &str); 107] = [
+    ("END", "tok_end"), ("FOR", "tok_for"), ("NEXT", "tok_next"), ("DATA", "tok_data"), ("INPUT", "tok_input"),
+    ("DEL", "tok_del"), ("DIM", "tok_dim"), ("READ", "tok_read"), ("GR", "tok_gr"), ("TEXT", "tok_text"),
+    ("PR#", "tok_prn"), ("IN#", "tok_inn"), ("CALL", "tok_call"), ("PLOT", "tok_plot"), ("HLIN", "tok_hlin"),
+    ("VLIN", "tok_vlin"), ("HGR2", "tok_hgr2"), ("HGR", "tok_hgr"), ("HCOLOR=", "tok_hcoloreq"), ("HPLOT", "tok_hplot"),
+    ("DRAW", "tok_draw"), ("XDRAW", "tok_xdraw"), ("HTAB", "tok_htab"), ("HOME", "tok_home"), ("ROT=", "tok_roteq"),
+    ("SCALE=", "tok_scaleeq"), ("SHLOAD", "tok_shload"), ("TRACE", "tok_trace"), ("NOTRACE", "tok_notrace"),
+    ("NORMAL", "tok_normal"), ("INVERSE", "tok_inverse"), ("FLASH", "tok_flash"), ("COLOR=", "tok_coloreq"),
+    ("POP", "tok_pop"), ("VTAB", "tok_vtab"), ("HIMEM:", "tok_himem"), ("LOMEM:", "tok_lomem"), ("ONERR", "tok_onerr"),
+    ("RESUME", "tok_resume"), ("RECALL", "tok_recall"), ("STORE", "tok_store"), ("SPEED=", "tok_speedeq"),
+    ("LET", "tok_let"), ("GOTO", "tok_goto"), ("RUN", "tok_run"), ("IF", "tok_if"), ("RESTORE", "tok_restore"),
+    ("&", "tok_amp"), ("GOSUB", "tok_gosub"), ("RETURN", "tok_return"), ("REM", "tok_rem"), ("STOP", "tok_stop"),
+    ("ON", "tok_on"), ("WAIT", "tok_wait"), ("LOAD", "tok_load"), ("SAVE", "tok_save"), ("DEF", "tok_def"),
+    ("POKE", "tok_poke"), ("PRINT", "tok_print"), ("CONT", "tok_cont"), ("LIST", "tok_list"), ("CLEAR", "tok_clear"),
+    ("GET", "tok_get"), ("NEW", "tok_new"), ("TAB(", "tok_tabp"), ("TO", "tok_to"), ("FN", "tok_fn"),
+    ("SPC(", "tok_spcp"), ("THEN", "tok_then"), ("AT", "tok_at"), ("NOT", "tok_not"), ("STEP", "tok_step"),
+    ("+", "tok_plus"), ("-", "tok_minus"), ("*", "tok_times"), ("/", "tok_div"), ("^", "tok_pow"), ("AND", "tok_and"),
+    ("OR", "tok_or"), (">", "tok_gtr"), ("=", "tok_eq"), ("<", "tok_less"), ("SGN", "tok_sgn"), ("INT", "tok_int"),
+    ("ABS", "tok_abs"), ("USR", "tok_usr"), ("FRE", "tok_fre"), ("SCRN(", "tok_scrnp"), ("PDL", "tok_pdl"),
+    ("POS", "tok_pos"), ("SQR", "tok_sqr"), ("RND", "tok_rnd"), ("LOG", "tok_log"), ("EXP", "tok_exp"), ("COS", "tok_cos"),
+    ("SIN", "tok_sin"), ("TAN", "tok_tan"), ("ATN", "tok_atn"), ("PEEK", "tok_peek"), ("LEN", "tok_len"),
+    ("STR$", "tok_str"), ("VAL", "tok_val"), ("ASC", "tok_asc"), ("CHR$", "tok_chr"), ("LEFT$", "tok_left"),
+    ("RIGHT$", "tok_right"), ("MID$", "tok_mid"),
+];
+const T_DATA: u8 = 131;
+const T_REM: u8 = 178;
+const T_GOTO: u8 = 171;
+const T_GOSUB: u8 = 176;
+const T_THEN: u8 = 196;
+const T_RUN: u8 = 172;
+const T_AT: u8 = 197;
+const T_PRINT: u8 = 186;
+
+fn kind_code(kind: &str) -> Option<u8> {
+    ROM.iter().position(|(_, k)| *k == kind).map(|i| 128 + i as u8)
+}
+
+#[derive(Clone, Debug, PartialEq)]
+enum RT {
+    Kw(u8),
+    Str(Vec<u8>),
+    Data(Vec<u8>),
+    Var(String),
+    Num(String),
+    Ch(u8),
+}
+
+/// What the Apple II would make of the text of one line (after its line number): reserved words are
+/// matched greedily in table order at every position outside strings, blanks ignored.
+fn rom_scan(body: &str) -> Vec<RT> {
+    let b: Vec<u8> = body.bytes().collect();
+    let mut raw: Vec<RT> = Vec::new();
+    let mut i = 0;
+    while i < b.len() {
+        let c = b[i];
+        if c == b' ' { i += 1; continue; }
+        if c == b'"' {
+            let mut j = i + 1;
+            let mut s = Vec::new();
+            while j < b.len() && b[j] != b'"' { s.push(b[j]); j += 1; }
+            raw.push(RT::Str(s));
+            i = if j < b.len() { j + 1 } else { j };
+            continue;
+        }
+        if c == b'?' { raw.push(RT::Kw(T_PRINT)); i += 1; continue; }
+        if (b'0'..=b';').contains(&c) { raw.push(RT::Ch(c)); i += 1; continue; }
+        // try the reserved words
+        let mut matched: Option<(u8, usize)> = None;
+        for (t, (word, _)) in ROM.iter().enumerate() {
+            let w = word.as_bytes();
+            let mut j = i;
+            let mut k = 0;
+            while k < w.len() {
+                while j < b.len() && b[j] == b' ' && k > 0 { j += 1; }
+                if j < b.len() && b[j].to_ascii_uppercase() == w[k] { j += 1; k += 1; } else { break; }
+            }
+            if k == w.len() {
+                let code = 128 + t as u8;
+                if code == T_AT {
+                    // ROM special cases: ATN wins over AT N, and A TO over AT O
+                    if j < b.len() && (b[j].to_ascii_uppercase() == b'N' || b[j].to_ascii_uppercase() == b'O') { continue; }
+                }
+                matched = Some((code, j));
+                break;
+            }
+        }
+        match matched {
+            Some((code, j)) => {
+                raw.push(RT::Kw(code));
+                i = j;
+                if code == T_REM { break; }
+                if code == T_DATA {
+                    let mut s = Vec::new();
+                    let mut inq = false;
+                    while i < b.len() && (inq || b[i] != b':') {
+                        if b[i] == b'"' { inq = !inq; }
+                        s.push(b[i]);
+                        i += 1;
+                    }
+                    raw.push(RT::Data(s));
+                }
+            }
+            None => { raw.push(RT::Ch(c.to_ascii_uppercase())); i += 1; }
+        }
+    }
+    // group identifier and number characters
+    let mut out: Vec<RT> = Vec::new();
+    let mut k = 0;
+    while k < raw.len() {
+        if let RT::Ch(c) = raw[k] {
+            if c.is_ascii_alphabetic() {
+                let mut s = String::new();
+                while k < raw.len() {
+                    if let RT::Ch(d) = raw[k] { if d.is_ascii_alphanumeric() { s.push(d as char); k += 1; continue; } }
+                    break;
+                }
+                if k < raw.len() { if let RT::Ch(d) = raw[k] { if d == b'$' || d == b'%' { s.push(d as char); k += 1; } } }
+                out.push(RT::Var(s));
+                continue;
+            }
+            if c.is_ascii_digit() || c == b'.' {
+                let mut s = String::new();
+                while k < raw.len() {
+                    if let RT::Ch(d) = raw[k] { if d.is_ascii_digit() || d == b'.' { s.push(d as char); k += 1; continue; } }
+                    break;
+                }
+                out.push(RT::Num(s));
+                continue;
+            }
+        }
+        out.push(raw[k].clone());
+        k += 1;
+    }
+    out
+}
+
+/// line number and the rest of a text line
+fn split_line(line: &str) -> Option<(usize, &str)> {
+    let t = line.trim_start();
+    let mut digits = String::new();
+    let mut end = 0;
+    for (i, ch) in t.char_indices() {
+        if ch.is_ascii_digit() { digits.push(ch); end = i + 1; } else if ch == ' ' { end = i + 1; } else { break; }
+    }
+    if digits.is_empty() { return None; }
+    digits.parse::<usize>().ok().map(|n| (n, &t[end..]))
+}
+
+struct Obs {
+    nums: Vec<usize>,
+    refs: Vec<usize>,
+    kws: Vec<u8>,
+    lits: Vec<(u8, Vec<u8>)>,
+    vars: Vec<(String, char)>,
+    per_line: Vec<(usize, Vec<RT>)>,
+}
+
+fn var_sig(v: &str) -> (String, char) {
+    let (name, suf) = match v.chars().last() { Some('$') => (&v[..v.len() - 1], '$'), Some('%') => (&v[..v.len() - 1], '%'), _ => (v, ' ') };
+    (name.chars().take(2).collect::<String>().to_uppercase(), suf)
+}
+
+fn line_refs(toks: &[RT]) -> Vec<usize> {
+    let mut refs = Vec::new();
+    let mut k = 0;
+    while k < toks.len() {
+        if let RT::Kw(c) = toks[k] {
+            if c == T_GOTO || c == T_GOSUB || c == T_THEN || c == T_RUN {
+                let mut j = k + 1;
+                loop {
+                    match toks.get(j) {
+                        Some(RT::Num(s)) if !s.contains('.') => { if let Ok(n) = s.parse::<usize>() { refs.push(n); } j += 1; }
+                        _ => break,
+                    }
+                    match toks.get(j) { Some(RT::Ch(b',')) if c != T_THEN && c != T_RUN => { j += 1; } _ => break }
+                }
+                k = j;
+                continue;
+            }
+        }
+        k += 1;
+    }
+    refs
+}
+
+fn observe(prog: &str) -> Obs {
+    let mut o = Obs { nums: vec![], refs: vec![], kws: vec![], lits: vec![], vars: vec![], per_line: vec![] };
+    for line in prog.lines() {
+        if line.trim().is_empty() { continue; }
+        if let Some((n, body)) = split_line(line) {
+            let toks = rom_scan(body);
+            o.nums.push(n);
+            o.refs.extend(line_refs(&toks));
+            for t in &toks {
+                match t {
+                    RT::Kw(c) => if *c != T_REM { o.kws.push(*c) },
+                    RT::Str(s) => o.lits.push((b'S', s.clone())),
+                    RT::Data(s) => o.lits.push((b'D', s.clone())),
+                    RT::Var(v) => o.vars.push(var_sig(v)),
+                    _ => {}
+                }
+            }
+            o.per_line.push((n, toks));
+        } else {
+            o.nums.push(usize::MAX);
+        }
+    }
+    o
+}
+
+// ------------------------------------------------------------------------------------------------
+// the abstract structure the minifier's passes see (tree-sitter parse of one line)
+// ------------------------------------------------------------------------------------------------
+#[derive(Default, Clone, Debug)]
+struct Abs {
+    num: usize,
+    rem: bool,
+    rem_nested: bool,
+    toks: Vec<u8>,
+    data: bool,
+    refs: Vec<usize>,
+    ends_str: bool,
+}
+
+fn new_parser() -> tree_sitter::Parser {
+    let mut p = tree_sitter::Parser::new();
+    p.set_language(&tree_sitter_applesoft::language()).expect("grammar");
+    p
+}
+
+/// emulate which nodes pass 1 visits (minifier.rs visit_pass1) and collect what it records
+fn abs_walk(node: tree_sitter::Node, src: &str, a: &mut Abs, stop: &mut bool) {
+    if *stop { return; }
+    let kind = node.kind();
+    if kind == "linenum" {
+        if let Some(n) = lang::node_integer::<usize>(&node, src) {
+            match node.parent() { Some(p) if p.kind() == "line" => a.num = n, _ => a.refs.push(n) }
+        }
+        return;
+    }
+    if let Some(c) = kind_code(kind) { a.toks.push(c); }
+    if kind.starts_with("name_") && !kind.ends_with("amp") { return; }
+    if kind == "statement" {
+        if let Some(tok) = node.named_child(0) {
+            if tok.kind() == "tok_rem" {
+                if let Some(prev) = node.prev_named_sibling() { if prev.kind() == "statement" { return; } }
+                match node.parent() { Some(p) if p.kind() == "line" => a.rem = true, _ => a.rem_nested = true }
+                *stop = true;
+                return;
+            }
+            if tok.kind() == "tok_data" { a.data = true; return; }
+            if tok.kind() == "tok_amp" { return; }
+        }
+    }
+    if kind == "str" { return; }
+    if node.named_child_count() == 0 { return; }
+    let mut c = node.walk();
+    for ch in node.children(&mut c) { abs_walk(ch, src, a, stop); }
+}
+
+/// pass 3 (`visit_pass3`): does the line end with a `str` node?
+fn ends_with_str(node: tree_sitter::Node, done: &mut Option<bool>) {
+    if done.is_some() { return; }
+    if node.kind() == "str" {
+        let mut curr = node;
+        while curr.kind() != "line" {
+            if curr.next_sibling().is_some() { return; }
+            match curr.parent() { Some(p) => curr = p, None => break }
+        }
+        *done = Some(true);
+        return;
+    }
+    let mut c = node.walk();
+    for ch in node.children(&mut c) { ends_with_str(ch, done); }
+}
+
+fn abstract_line(parser: &mut tree_sitter::Parser, line: &str) -> Abs {
+    let src = String::from(line) + "\n";
+    let tree = parser.parse(&src, None).expect("parse");
+    let mut a = Abs::default();
+    let mut stop = false;
+    let root = tree.root_node();
+    let mut c = root.walk();
+    for ch in root.children(&mut c) {
+        if ch.kind() == "line" {
+            let mut c2 = ch.walk();
+            for g in ch.children(&mut c2) { abs_walk(g, &src, &mut a, &mut stop); }
+            let mut d = None;
+            ends_with_str(ch, &mut d);
+            a.ends_str = d.unwrap_or(false);
+        }
+    }
+    a
+}
+
+// ------------------------------------------------------------------------------------------------
+// the real code
+// ------------------------------------------------------------------------------------------------
+#[derive(Clone, Debug, PartialEq)]
+enum Res { Ok(String), Err(String), Panic(String) }
+
+fn minify(src: &str, level: usize) -> Res {
+    match guarded(|| {
+        let mut m = Minifier::new();
+        m.set_level(level);
+        m.minify(src).map_err(|e| e.to_string())
+    }) {
+        Ok(Ok(s)) => Res::Ok(s),
+        Ok(Err(e)) => Res::Err(e),
+        Err(p) => Res::Panic(panic_site(&p)),
+    }
+}
+
+fn verifies(src: &str) -> bool {
+    guarded(|| lang::verify_str(tree_sitter_applesoft::language(), src).is_ok()).unwrap_or(false)
+}
+
+fn tokenizes(src: &str) -> bool {
+    guarded(|| { let mut t = Tokenizer::new(); t.tokenize(src, 2049).is_ok() }).unwrap_or(false)
+}
+
+// ------------------------------------------------------------------------------------------------
+// generator
+// ------------------------------------------------------------------------------------------------
+const REALS: [&str; 44] = [
+    "X", "Y", "I", "J", "N", "K", "AB", "ABC", "ABD", "ABCDE", "ABX", "ABXYZ", "COX", "COXYZ", "LOX", "LOXYZ", "GEX", "GEXYZ",
+    "LEX", "LIXY", "LIXYZ", "NOX", "NOXYZ", "POX", "POXYZ", "INX", "INXYZ", "GOX", "GOXYZ", "XAB", "XABCD", "XFY", "XFYZZ", "XTZ",
+    "XTZZZ", "STX", "STXYZ", "HELLO", "XA1B2", "B2C3", "SCALE", "CUBE", "WIDTH", "XIB",
+];
+const BAD_NAMES: [&str; 8] = ["TOTAL", "SCORE", "ATNX", "FNX", "COUNTER", "ZZTOP", "XSTEP", "IFY"];
+const STRS: [&str; 8] = ["A$", "B$", "ABC$", "ABD$", "NAME$", "NA$", "XTQ$", "LOW$"];
+const INTS: [&str; 5] = ["I%", "AB%", "ABC%", "COUNT%", "XAB%"];
+const TEXTS: [&str; 14] = [
+    "HELLO", "GOTO 100", "REM NOT A COMMENT", "PRINT:END", "A,B;C", " LEAD", "TRAIL ", "IF X THEN 10", "DATA 1,2", "?", "", "X=1:Y=2",
+    "ON ERR", "ATN TO STEP",
+];
+const DATAW: [&str; 9] = ["APPLE", "GOTO", "REM X", "A B", "THEN 10", "FOR", "X=1", "PRINT", "ON"];
+
+struct Gen<'a> {
+    r: &'a mut Rng,
+    nums: Vec<usize>,
+    rem_lines: Vec<usize>,
+    juxt: bool,
+}
+
+impl<'a> Gen<'a> {
+    fn casefix(&mut self, s: &str) -> String { if self.r.chance(8) { s.to_lowercase() } else { s.to_string() } }
+    fn sp(&mut self) -> &'static str { if self.r.chance(70) { " " } else if self.r.chance(50) { "" } else { "  " } }
+    fn real(&mut self) -> String {
+        if self.r.chance(3) { let s = *self.r.pick(&BAD_NAMES); return s.to_string(); }
+        let s = *self.r.pick(&REALS);
+        self.casefix(s)
+    }
+    fn avar(&mut self, depth: usize) -> String {
+        let base = if self.r.chance(12) { let s = *self.r.pick(&INTS); self.casefix(s) } else { self.real() };
+        if depth > 0 && self.r.chance(12) { format!("{}({})", base, self.aexpr(depth - 1)) } else { base }
+    }
+    fn svar(&mut self) -> String { let s = *self.r.pick(&STRS); self.casefix(s) }
+    fn num(&mut self) -> String {
+        match self.r.below(6) { 0 => "0".into(), 1 => "1".into(), 2 => format!("{}", self.r.below(256)), 3 => "3.14".into(), 4 => ".5".into(), _ => format!("{}", self.r.below(40000)) }
+    }
+    fn text(&mut self) -> String { let s = *self.r.pick(&TEXTS); s.to_string() }
+    fn strlit(&mut self, open_ok: bool) -> String {
+        let t = self.text();
+        if open_ok && self.r.chance(35) { format!("\"{}", t.trim_end()) } else { format!("\"{}\"", t) }
+    }
+    fn aexpr(&mut self, depth: usize) -> String {
+        match self.r.below(if depth == 0 { 2 } else { 8 }) {
+            0 => self.num(),
+            1 => self.avar(depth),
+            2 | 3 => { let op = *self.r.pick(&["+", "-", "*", "/", "^"]); format!("{}{}{}{}{}", self.avar(depth - 1), self.sp(), op, self.sp(), self.aexpr(depth - 1)) }
+            4 => format!("({})", self.aexpr(depth - 1)),
+            5 => { let f = *self.r.pick(&["ABS", "INT", "SGN", "PEEK", "RND", "SQR", "ATN"]); format!("{}({})", f, self.aexpr(depth - 1)) }
+            6 => format!("LEN({})", self.svar()),
+            _ => format!("- {}", self.avar(depth - 1)),
+        }
+    }
+    fn cond(&mut self, depth: usize) -> String {
+        let base = match self.r.below(4) {
+            0 => self.avar(1),
+            1 => format!("{} = {}", self.svar(), self.strlit(false)),
+            _ => { let op = *self.r.pick(&["=", "<", ">", "<=", ">=", "<>"]); format!("{}{}{}{}{}", self.aexpr(1), self.sp(), op, self.sp(), self.avar(1)) }
+        };
+        if depth > 0 && self.r.chance(30) { let op = *self.r.pick(&["AND", "OR"]); format!("{} {} {}", base, op, self.cond(depth - 1)) } else { base }
+    }
+    fn sexpr(&mut self, open_ok: bool) -> String {
+        match self.r.below(6) {
+            0 | 1 => self.strlit(open_ok),
+            2 => self.svar(),
+            3 => format!("CHR$({})", self.r.below(128)),
+            4 => format!("LEFT$({},{})", self.svar(), self.r.range(1, 5)),
+            _ => format!("{} + {}", self.svar(), self.strlit(open_ok)),
+        }
+    }
+    fn target(&mut self) -> usize {
+        let k = self.r.below(100);
+        if k < 55 && !self.rem_lines.is_empty() { *self.r.pick(&self.rem_lines) }
+        else if k < 92 { *self.r.pick(&self.nums) }
+        else { let n = *self.r.pick(&self.nums); n + 1 + self.r.below(3) }
+    }
+    /// one statement; `last` = it ends the line (an unterminated string is allowed there)
+    fn stmt(&mut self, last: bool, depth: usize) -> String {
+        let k = self.r.below(100);
+        match k {
+            0..=15 => {
+                let mut s = if self.r.chance(10) { "?".to_string() } else { "PRINT".to_string() };
+                let n = self.r.below(4);
+                for i in 0..n {
+                    s += self.sp();
+                    let open = last && i + 1 == n;
+                    s += &(if self.r.chance(50) { self.sexpr(open) } else { self.aexpr(2) });
+                    if i + 1 < n {
+                        if self.r.chance(3) { self.juxt = true; s += " "; } else { s += *self.r.pick(&[";", ",", ";", ";;", " ; "]); }
+                    } else if self.r.chance(25) && !s.ends_with(|c: char| c != '"' && !c.is_ascii_alphanumeric() && c != ')' && c != '$') {
+                        if !(open && !s.ends_with('"')) || s.ends_with('"') { s += ";"; }
+                    }
+                }
+                s
+            }
+            16..=23 => format!("{}{}={}{}", self.svar(), self.sp(), self.sp(), self.sexpr(last)),
+            24..=33 => { let l = if self.r.chance(15) { "LET " } else { "" }; format!("{}{}{}={}{}", l, self.avar(2), self.sp(), self.sp(), self.aexpr(2)) }
+            34..=41 => format!("GOTO {}", self.target()),
+            42..=49 => format!("GOSUB {}", self.target()),
+            50..=55 => format!("IF {} THEN {}", self.cond(1), self.target()),
+            56..=58 => format!("IF {} GOTO {}", self.cond(1), self.target()),
+            59..=63 => if depth > 0 { format!("IF {} THEN {}", self.cond(1), self.stmt(last, depth - 1)) } else { "RETURN".into() },
+            64..=69 => {
+                let g = *self.r.pick(&["GOTO", "GOSUB"]);
+                let n = self.r.range(1, 3);
+                let ts: Vec<String> = (0..n).map(|_| self.target().to_string()).collect();
+                format!("ON {} {} {}", self.aexpr(1), g, ts.join(","))
+            }
+            70 => format!("ONERR GOTO {}", self.target()),
+            71 => format!("RUN {}", self.target()),
+            72..=76 => {
+                let st = if self.r.chance(40) { format!(" STEP {}", self.aexpr(1)) } else { String::new() };
+                format!("FOR {} = {} TO {}{}", self.real(), self.aexpr(1), self.aexpr(1), st)
+            }
+            77..=78 => if self.r.chance(50) { "NEXT".into() } else { format!("NEXT {}", self.real()) },
+            79..=80 => format!("READ {}", if self.r.chance(50) { self.svar() } else { self.avar(1) }),
+            81 => format!("INPUT {};{}", self.strlit(false), self.svar()),
+            82 => format!("DIM {}({})", self.real(), self.r.range(1, 20)),
+            83 => format!("POKE {},{}", self.aexpr(1), self.aexpr(1)),
+            84 => format!("HLIN {},{} AT {}", self.aexpr(1), self.aexpr(1), self.aexpr(1)),
+            85 => format!("HPLOT {},{} TO {},{}", self.aexpr(1), self.aexpr(1), self.aexpr(1), self.aexpr(1)),
+            86 => format!("VTAB {}", self.aexpr(1)),
+            87 => format!("DRAW {} AT {},{}", self.aexpr(1), self.aexpr(1), self.aexpr(1)),
+            88 => "RETURN".into(),
+            89 => "END".into(),
+            90 => (*self.r.pick(&["HOME", "TEXT", "GR", "POP", "RESTORE", "STOP", "RESUME", "NORMAL"])).to_string(),
+            91 => format!("GET {}", self.svar()),
+            92 => format!("CALL {}", self.aexpr(1)),
+            93 => if self.r.chance(30) { (*self.r.pick(&["LIST", "LIST 10,20", "DEL 10,20"])).to_string() } else { "HOME".into() },
+            94 => format!("DEF FN {}({}) = {}", self.real(), "X", self.aexpr(1)),
+            _ => "TEXT".into(),
+        }
+    }
+    fn data_stmt(&mut self) -> String {
+        let n = self.r.range(1, 4);
+        let mut items = Vec::new();
+        for i in 0..n {
+            let it = match self.r.below(4) {
+                0 => self.num(),
+                1 => { let w = *self.r.pick(&DATAW); w.to_string() }
+                2 => self.strlit(i + 1 == n),
+                _ => format!(" {} ", self.r.below(100)),
+            };
+            items.push(it);
+        }
+        format!("DATA{}{}", self.sp(), items.join(","))
+    }
+    fn rem_text(&mut self) -> String { let t = self.text(); format!("REM{}{}", self.sp(), t) }
+    fn line_body(&mut self, is_rem: bool) -> String {
+        if is_rem { return self.rem_text(); }
+        if self.r.chance(3) { return format!("IF {} THEN {}", self.cond(0), self.rem_text()); }
+        let n = self.r.range(1, 3);
+        let mut parts: Vec<String> = Vec::new();
+        let data_last = self.r.chance(10);
+        let trail_rem = !data_last && self.r.chance(15);
+        for i in 0..n {
+            let last = i + 1 == n && !data_last && !trail_rem;
+            parts.push(self.stmt(last, 1));
+        }
+        if data_last { parts.push(self.data_stmt()); }
+        if trail_rem { parts.push(self.rem_text()); }
+        let mut s = String::new();
+        if self.r.chance(4) { s += ":"; }
+        for (i, p) in parts.iter().enumerate() {
+            if i > 0 { s += *self.r.pick(&[":", ":", " : ", "::", ": "]); }
+            s += p;
+        }
+        if self.r.chance(4) && !s.ends_with('"') && !data_last { s += ":"; }
+        s
+    }
+}
+
+fn gen_program(r: &mut Rng, discards: &mut u64) -> (String, bool) {
+    let n = r.range(2, 9);
+    let start = *r.pick(&[1usize, 5, 10, 10, 100, 1000, 63000]);
+    let step = *r.pick(&[1usize, 5, 10, 10, 10, 100]);
+    let nums: Vec<usize> = (0..n).map(|i| start + i * step).collect();
+    // which lines are REM-only: chains, first / last line forced now and then
+    let mut is_rem = vec![false; n];
+    for i in 0..n {
+        let p = if i > 0 && is_rem[i - 1] { 45 } else { 22 };
+        is_rem[i] = r.chance(p);
+    }
+    if r.chance(25) { is_rem[0] = true; }
+    if r.chance(25) { is_rem[n - 1] = true; }
+    let rem_lines: Vec<usize> = (0..n).filter(|i| is_rem[*i]).map(|i| nums[i]).collect();
+    let mut g = Gen { r, nums: nums.clone(), rem_lines, juxt: false };
+    let mut prog = String::new();
+    for i in 0..n {
+        let mut line = String::new();
+        let mut ok = false;
+        for _try in 0..6 {
+            let body = g.line_body(is_rem[i]);
+            line = format!("{}{}{}", nums[i], g.sp(), body);
+            if line.len() <= 120 && verifies(&line) { ok = true; break; }
+            *discards += 1;
+        }
+        if !ok { line = format!("{} PRINT", nums[i]); }
+        prog += &line;
+        prog += "\n";
+    }
+    (prog, g.juxt)
+}
+
+/// fixed programs that must always be part of the run (witnesses of DESIGN §9 item 24 and of what
+/// was found while building this family)
+const FIXED: [&str; 14] = [
+    "10 GOSUB 20\n15 X=1\n20 REM SUB\n30 PRINT\n40 RETURN\n",
+    "10 PRINT\n20 REM END\n",
+    "10 GOTO 30\n20 X=1\n30 REM LAST\n",
+    "10 REM FIRST\n20 REM SECOND\n30 GOTO 10\n40 GOSUB 20\n50 END\n",
+    "10 ON LOX GOTO 10,50\n50 END\n",
+    "10 ON LOXYZ GOSUB 50\n20 END\n50 RETURN\n",
+    "10 DATA \"ABC\n20 PRINT\n30 END\n",
+    "10 A$=\"HI\": IF X THEN REM HI\n20 END\n",
+    "10 FOR I = ABC TO GEXYZ STEP COX\n20 IF XABCD THEN 40\n30 NEXT: X = XFYZZ OR XTZ AND STXYZ\n40 END\n",
+    "10 PRINT \"ABC\"\n20 PRINT \"DEF\n30 A$=\"X\":REM TRAIL\n40 PRINT A$;\"Y\";B$\n50 END\n",
+    "10 IF X THEN 60\n20 IF X GOTO 60\n30 ON X GOTO 60,70,80\n60 REM A\n70 REM B\n80 REM C\n90 PRINT\n",
+    "10 HELLO=1:HELP=2:HE=3:HELLO$=\"A\":HELLO%=4:XA1B2(1)=5\n20 PRINT HELLO;HELP;HE;HELLO$;HELLO%;XA1B2(1)\n",
+    "100 ONERR GOTO 900\n110 RUN 900\n120 GOTO 901\n900 REM HANDLER\n910 RESUME\n",
+    "10 HLIN 1,2 AT XABC: DRAW 1 AT ABX,2\n20 LIST\n30 REM X\n40 GOTO 30\n50 END\n",
+];
+/// hazards kept apart under their own signature prefix: PRINT items run together without separator
+/// (repaired by the proposed fix), and a reserved word that spans three nodes (`XS`+`TO`+`P` = `STOP`;
+/// no next-token guard can see it: known finding, not repaired)
+const SPECIAL: [(&str, &str); 2] = [
+    ("10 PRINT XIB FRE(0)\n20 END\n", "c17/print-juxtaposition"),
+    ("10 FOR I = XSQ TO P\n20 END\n", "c17/three-node-token"),
+];
+
+// ------------------------------------------------------------------------------------------------
+// one case
+// ------------------------------------------------------------------------------------------------
+fn ascending(nums: &[usize]) -> bool { nums.windows(2).all(|w| w[0] < w[1]) && nums.iter().all(|n| *n <= 63999) }
+
+fn natlist(v: &[usize]) -> String { if v.is_empty() { "-".into() } else { v.iter().map(|x| x.to_string()).collect::<Vec<_>>().join(",") } }
+
+fn lit_ids(toks: &[RT], table: &mut Vec<(u8, Vec<u8>)>, add: bool) -> Vec<usize> {
+    let mut ids = Vec::new();
+    for t in toks {
+        let key = match t { RT::Str(s) => (b'S', s.clone()), RT::Data(s) => (b'D', s.clone()), _ => continue };
+        match table.iter().position(|k| *k == key) {
+            Some(i) => ids.push(i + 1),
+            None => if add { table.push(key); ids.push(table.len()); } else { ids.push(9999); }
+        }
+    }
+    ids
+}
+
+fn run_case(ctx: &mut Ctx, idx: usize, prog: &str, fam: &str) {
+    let inp = observe(prog);
+    let valid_in = verifies(prog) && ascending(&inp.nums) && tokenizes(prog);
+    if !valid_in {
+        ctx.out.count("input-invalid-skipped");
+        return;
+    }
+    let mut parser = new_parser();
+    let in_lines: Vec<&str> = prog.lines().filter(|l| !l.trim().is_empty()).collect();
+    let abs: Vec<Abs> = in_lines.iter().map(|l| abstract_line(&mut parser, l)).collect();
+    let mut lit_table: Vec<(u8, Vec<u8>)> = Vec::new();
+    let in_lits: Vec<Vec<usize>> = inp.per_line.iter().map(|(_, t)| lit_ids(t, &mut lit_table, true)).collect();
+    let in_set: BTreeSet<usize> = inp.nums.iter().cloned().collect();
+    let results: Vec<Res> = (0..4).map(|l| minify(prog, l)).collect();
+    let mut nontrivial = false;
+    // observed variant bits for the tie
+    let mut bit_remap = true;
+    let mut bit_keeplast = true;
+    let mut bit_data = true;
+    let mut bit_remtop = true;
+    let mut parses = [true; 4];
+    let mut lits_bad = [false; 4];
+    let last_deletable = abs.last().map(|a| a.rem || a.rem_nested).unwrap_or(false);
+
+    for level in 0..4usize {
+        let case = format!("idx={} level={} prog={:?}", idx, level, prog);
+        let res = &results[level];
+        ctx.out.count(&format!("level{}", level));
+        let out = match res {
+            Res::Ok(s) => s.clone(),
+            Res::Err(e) => {
+                let sig = if level >= 2 && last_deletable && e.contains("Line Number") { "c17/level2/final-rem-error".to_string() }
+                    else { format!("{}/error:{}", fam, e.replace(' ', "-")) };
+                if sig == "c17/level2/final-rem-error" {
+                    bit_keeplast = false;
+                    if let Some(a) = abs.last() { if a.rem_nested && !a.rem { bit_remtop = false; } }
+                }
+                ctx.out.oracle(false, "c17-output-exists", &sig, &case);
+                continue;
+            }
+            Res::Panic(p) => { ctx.out.oracle(false, "c17-output-exists", &format!("panic:{}", p), &case); continue; }
+        };
+        ctx.out.oracle(true, "c17-output-exists", "-", &case);
+        if level == 0 {
+            ctx.out.oracle(out == prog, "c17-level0-identity", "c17/level0/changed", &case);
+            continue;
+        }
+        let o = observe(&out);
+        // 1 valid again
+        let valid = verifies(&out) && ascending(&o.nums) && tokenizes(&out);
+        // one root cause, one signature: classify before the individual clauses are checked
+        let lone_quote = inp.per_line.iter().any(|(_, t)| matches!(t.last(), Some(RT::Str(s)) if s.is_empty()))
+            && prog.lines().any(|l| l.trim_end().ends_with('"') && l.matches('"').count() % 2 == 1);
+        let l2_obs = match &results[2] { Res::Ok(s) => Some(observe(s)), _ => None };
+        let nested_deleted = level >= 2 && abs.iter().any(|a| a.rem_nested && !a.rem && !o.nums.contains(&a.num)
+            && !(level == 3 && l2_obs.as_ref().map_or(false, |x| x.nums.contains(&a.num))));
+        let data_absorbed = level == 3 && o.per_line.iter().any(|(_, t)| match t.iter().position(|x| matches!(x, RT::Data(_))) { Some(p) => p + 1 < t.len(), None => false })
+            && inp.lits.iter().any(|(k, d)| *k == b'D' && d.iter().filter(|c| **c == b'"').count() % 2 == 1);
+        let data_swallow = level == 3 && inp.lits.iter().any(|(k, d)| *k == b'D' && d.iter().filter(|c| **c == b'"').count() % 2 == 1)
+            && l2_obs.as_ref().map_or(false, |x| x.lits == inp.lits) && o.lits != inp.lits;
+        let root: Option<String> = if nested_deleted { Some("c17/level2/if-then-rem-line-deleted".into()) }
+            else if data_absorbed || data_swallow { Some("c17/level3/data-payload-changed".into()) }
+            else if lone_quote { Some("c17/lone-quote-dropped".into()) } else { None };
+        // statements swallowed by an unterminated DATA string: the output's structure is not comparable
+        if data_absorbed || data_swallow { parses[level] = false; }
+        let swallowed = data_absorbed || data_swallow;
+        let sig_of = |specific: &str| -> String { match &root { Some(r) => r.clone(), None => format!("{}/{}", fam, specific) } };
+        let inv_sig = if out.contains(")(") && !prog.contains(")(") { "c17/array-name-parenthesized".to_string() }
+            else if root.is_some() { sig_of("") }
+            else if o.kws != inp.kws { format!("{}/hidden-token", fam) }
+            else { sig_of("output-invalid") };
+        ctx.out.oracle(valid, "c17-output-valid", &inv_sig, &case);
+        parses[level] = valid && !swallowed;
+        if !valid { continue; }
+        // 2 references
+        let out_set: BTreeSet<usize> = o.nums.iter().cloned().collect();
+        let l2_heads: BTreeSet<usize> = match &results[2] { Res::Ok(s) => observe(s).nums.into_iter().collect(), _ => BTreeSet::new() };
+        if o.refs.len() != inp.refs.len() {
+            ctx.out.oracle(false, "c17-references", &sig_of("references-dropped"), &case);
+        } else {
+            let mut ok = true;
+            let mut sig = sig_of("dangling-reference");
+            for (a, b) in inp.refs.iter().zip(o.refs.iter()) {
+                if in_set.contains(a) {
+                    if !out_set.contains(b) || b < a {
+                        ok = false;
+                        if level == 3 && l2_heads.contains(b) { sig = "c17/level3/target-merged-away".to_string(); bit_remap = false; }
+                    }
+                    if a != b { nontrivial = true; }
+                } else if a != b { ok = false; sig = sig_of("unresolved-reference-changed"); }
+            }
+            ctx.out.oracle(ok, "c17-references", &sig, &case);
+        }
+        // 3 strings and DATA payloads
+        let lits_ok = o.lits == inp.lits;
+        lits_bad[level] = !lits_ok;
+        ctx.out.oracle(lits_ok, "c17-literals", &sig_of("literal-changed"), &case);
+        // 4 variables keep their identity
+        ctx.out.oracle(o.vars == inp.vars, "c17-variables", &sig_of("variable-identity-changed"), &case);
+        if o.vars == inp.vars && out.len() < prog.len() { nontrivial = true; }
+        // 5 reserved words as the ROM sees them
+        ctx.out.oracle(o.kws == inp.kws, "c17-reserved-words", &sig_of("reserved-words-changed"), &case);
+        // variant observations
+        if level >= 2 {
+            for a in &abs { if a.rem_nested && !a.rem && !out_set.contains(&a.num) && !(level == 3 && l2_heads.contains(&a.num)) { bit_remtop = false; } }
+        }
+        if level == 3 {
+            // was the line after a DATA line appended to it?
+            let l2: Vec<usize> = l2_heads.iter().cloned().collect();
+            for a in abs.iter().filter(|a| a.data) {
+                if let Some(p) = l2.iter().position(|n| *n == a.num) {
+                    if p + 1 < l2.len() && !out_set.contains(&l2[p + 1]) { bit_data = false; }
+                }
+            }
+            if out.lines().count() < l2_heads.len() { nontrivial = true; }
+        }
+    }
+    // ---- tie with the Lean model (levels 1-3) ----
+    let cfg = format!("{}{}{}{}", bit_remap as u8, bit_keeplast as u8, bit_data as u8, bit_remtop as u8);
+    ctx.out.count(&format!("cfg-{}", cfg));
+    for level in 1..4usize {
+        // an output that does not parse has no abstract structure to compare (already reported above)
+        if !parses[level] || (level == 3 && !parses[2]) { ctx.out.count("tie-skipped-unparsable-output"); continue; }
+        // lengths / trailing strings of the stage-2 text: level 1 for level 1, level 2 otherwise
+        let stage2 = match &results[if level == 1 { 1 } else { 2 }] { Res::Ok(s) => s.clone(), _ => String::new() };
+        let mut s2: BTreeMap<usize, (usize, bool)> = BTreeMap::new();
+        for l in stage2.lines() {
+            let a = abstract_line(&mut parser, l);
+            s2.insert(a.num, (l.len(), a.ends_str));
+        }
+        let mut req = format!("c17 min {} {}", cfg, level);
+        for (i, a) in abs.iter().enumerate() {
+            let (len, ends) = s2.get(&a.num).cloned().unwrap_or((0, false));
+            let toks: Vec<usize> = a.toks.iter().map(|c| *c as usize).collect();
+            req += &format!(" {}:{}:{}:{}:{}:{}:{}:{}:{}", a.num, a.rem as u8, a.rem_nested as u8, natlist(&toks), a.data as u8, len,
+                ends as u8, natlist(&a.refs), if bit_data && !lits_bad[level] { natlist(&in_lits[i]) } else { "-".to_string() });
+        }
+        let ans = match &results[level] {
+            Res::Ok(s) => {
+                let mut v = vec!["ok".to_string()];
+                for l in s.lines() {
+                    let a = abstract_line(&mut parser, l);
+                    let body = split_line(l).map(|x| x.1).unwrap_or("");
+                    // (literals that the oracle above already reported as changed are left out of the comparison)
+                    let ids = if bit_data && !lits_bad[level] { lit_ids(&rom_scan(body), &mut lit_table, false) } else { vec![] };
+                    v.push(format!("{}:{}:{}:{}", a.num, l.len(), natlist(&a.refs), natlist(&ids)));
+                }
+                v.join(" ")
+            }
+            Res::Err(_) => "err".to_string(),
+            Res::Panic(_) => "panic".to_string(),
+        };
+        ctx.out.q(&req, &ans);
+    }
+    for level in 0..4 { ctx.out.case(format!("{}|{}", level, prog).as_bytes(), nontrivial && level > 0); }
+    if nontrivial { ctx.out.count("nontrivial-programs"); }
+    ctx.out.sample(&format!("idx={} {:?} => L3 {:?}", idx, prog, results[3]));
+}
+
+// ------------------------------------------------------------------------------------------------
+// shortening rule and guard table against the model
+// ------------------------------------------------------------------------------------------------
+fn run_short_cases(ctx: &mut Ctx, base: usize) {
+    // (template, name position marker `@`, follower kind): the real minifier tells us whether it guarded
+    // (template with `@` for the name, its minified text before / after the name, following token kind)
+    let followers: [(&str, &str, &str, &str); 8] = [
+        ("10 FOR I = @ TO 5", "10FORI=", "TO5", "tok_to"), ("10 FOR I = 1 TO 9 STEP @: NEXT", "10FORI=1TO9STEP", ":NEXT", ""),
+        ("10 FOR I = 1 TO @ STEP 2", "10FORI=1TO", "STEP2", "tok_step"), ("10 IF @ THEN 10", "10IF", "THEN10", "tok_then"),
+        ("10 ON @ GOTO 10", "10ON", "GOTO10", "tok_goto"), ("10 ON @ GOSUB 10", "10ON", "GOSUB10", "tok_gosub"),
+        ("10 X = @ OR Y", "10X=", "ORY", "tok_or"), ("10 X = @ AND Y", "10X=", "ANDY", "tok_and"),
+    ];
+    let idx = base;
+    if !ctx.out.wants(idx) { return; }
+    let mut n = 0u64;
+    for a in b'A'..=b'Z' {
+        for b in (b'A'..=b'Z').chain(b'0'..=b'9') {
+            for tail in ["Q", "QQQ"] {
+                let name = format!("{}{}{}", a as char, b as char, tail);
+                for (tpl, pre, suf, foll) in followers.iter() {
+                    let src = tpl.replace('@', &name) + "\n";
+                    if !verifies(&src) { continue; }
+                    let out = match minify(&src, 1) { Res::Ok(s) => s, _ => continue };
+                    n += 1;
+                    // what did the real code write for the name?
+                    let short2 = &name[0..2];
+                    let line = out.trim_end();
+                    let written = if line.len() >= pre.len() + suf.len() && line.starts_with(pre) && line.ends_with(suf) {
+                        line[pre.len()..line.len() - suf.len()].to_string() } else { line.to_string() };
+                    let guarded_real = written != short2;
+                    // the output must read the same to the ROM
+                    let (i, o) = (observe(&src), observe(&out));
+                    let ok = verifies(&out) && i.kws == o.kws && i.vars == o.vars;
+                    ctx.out.oracle(ok, "c17-reserved-words", "c17/hidden-token", &format!("idx={} level=1 prog={:?} out={:?}", idx, src, out));
+                    if !ok { continue; } // nothing sensible to compare with the model
+                    if let Some(code) = if foll.is_empty() { None } else { kind_code(foll) } {
+                        ctx.out.q(&format!("c17 guard {} {}", hx(short2.as_bytes()), code), if guarded_real { "1" } else { "0" });
+                    } else {
+                        // no following sibling at all: never guarded
+                        ctx.out.oracle(!guarded_real, "c17-guard-last", "c17/guard-without-follower", &format!("idx={} {}", idx, src.trim()));
+                    }
+                    ctx.out.q(&format!("c17 short r {} {}", hx(name.as_bytes()), guarded_real as u8), &hx(written.as_bytes()));
+                }
+            }
+        }
+    }
+    // string / integer names
+    for (name, kind) in [("HELLO$", "s"), ("HEL$", "s"), ("HE$", "s"), ("H$", "s"), ("HELLO%", "i"), ("HEL%", "i"), ("HE%", "i"), ("hello$", "s"), ("HELLO", "r"), ("HEL", "r"), ("HE", "r"), ("H", "r")] {
+        let src = format!("10 PRINT {}\n", name);
+        if let Res::Ok(out) = minify(&src, 1) {
+            let written = out.trim_end().trim_start_matches("10PRINT").to_string();
+            ctx.out.q(&format!("c17 short {} {} 0", kind, hx(name.as_bytes())), &hx(written.as_bytes()));
+            n += 1;
+        }
+    }
+    ctx.out.count_n("short-name-cases", n);
+    ctx.out.case(b"short-name-sweep", true);
+}
+
+pub fn run(ctx: &mut Ctx) {
+    if let Ok(p) = std::env::var("C17_PROBE") {
+        let src = std::fs::read_to_string(p).unwrap();
+        for level in 0..4 { println!("--- level {} ---\n{:?}\n[verify {}]", level, minify(&src, level), match minify(&src, level) { Res::Ok(s) => verifies(&s), _ => false }); }
+        return;
+    }
+    let mut rng = Rng::new(ctx.seed);
+    let n = ctx.n(3000, 60000);
+    let mut discards = 0u64;
+    let mut idx = 0usize;
+    for p in FIXED.iter() {
+        if ctx.out.wants(idx) { run_case(ctx, idx, p, "c17"); }
+        idx += 1;
+    }
+    for (p, fam) in SPECIAL.iter() {
+        if ctx.out.wants(idx) { run_case(ctx, idx, p, fam); }
+        idx += 1;
+    }
+    run_short_cases(ctx, idx);
+    idx += 1;
+    for _ in 0..n {
+        let mut r = rng.fork(idx as u64);
+        if ctx.out.wants(idx) {
+            let (prog, juxt) = gen_program(&mut r, &mut discards);
+            if juxt { ctx.out.count("print-juxtaposition"); }
+            run_case(ctx, idx, &prog, if juxt { "c17/print-juxtaposition" } else { "c17" });
+        }
+        idx += 1;
+    }
+    ctx.out.count_n("discarded-invalid-lines", discards);
+}
